@@ -562,6 +562,10 @@ func (a *fnA) condFacts(cond ssa.Value, truth bool, p *ssa.BasicBlock, idx int, 
 				continue
 			}
 			if cand >= 0 {
+				// a flag set on two paths (bad := x < 0; if x == 0 { bad = y < z }):
+				// the wanted truth value came in through one edge or the other -
+				// what both alternatives imply holds either way
+				a.condFactsEither(c, truth, p, idx, into)
 				return
 			}
 			cand = i
@@ -1086,4 +1090,61 @@ func (a *fnA) aliveInvariants() []string {
 	}
 	sort.Strings(out)
 	return out
+}
+
+// condFactsEither: the facts common to every way a boolean φ can have the
+// wanted truth value. Each non-excluded edge contributes the facts of its
+// value and of the branches on the single-entry chain leading to it; a fact
+// is kept when every other alternative entails it.
+func (a *fnA) condFactsEither(c *ssa.Phi, truth bool, p *ssa.BasicBlock, idx int, into *ssa.BasicBlock) {
+	if a.condDepth > 4 {
+		return
+	}
+	a.condDepth++
+	defer func() { a.condDepth-- }()
+	var alts [][]Ineq
+	for i, e := range c.Edges {
+		if k, isK := e.(*ssa.Const); isK && k.Value != nil && k.Value.Kind() == constant.Bool {
+			if constant.BoolVal(k.Value) != truth {
+				continue // this edge cannot give the wanted value
+			}
+		}
+		key := edgeKey{c.Block(), 1000 + i}
+		delete(a.edgeFacts, key)
+		delete(a.edgeNil, key)
+		if _, isK := e.(*ssa.Const); !isK {
+			a.condFacts(e, truth, key.from, key.idx, nil)
+		}
+		cur := c.Block().Preds[i]
+		if iff, ok := cur.Instrs[len(cur.Instrs)-1].(*ssa.If); ok && cur.Succs[0] != cur.Succs[1] {
+			a.condFacts(iff.Cond, cur.Succs[0] == c.Block(), key.from, key.idx, nil)
+		}
+		for n := 0; n < 8 && len(cur.Preds) == 1; n++ {
+			q := cur.Preds[0]
+			if iff, ok := q.Instrs[len(q.Instrs)-1].(*ssa.If); ok && q.Succs[0] != q.Succs[1] {
+				a.condFacts(iff.Cond, q.Succs[0] == cur, key.from, key.idx, nil)
+			}
+			cur = q
+		}
+		alts = append(alts, append([]Ineq(nil), a.edgeFacts[key]...))
+		delete(a.edgeFacts, key)
+		delete(a.edgeNil, key)
+	}
+	if len(alts) < 2 {
+		return
+	}
+	for i, fs := range alts {
+		for _, q := range fs {
+			common := true
+			for j, other := range alts {
+				if j != i && !entails(other, q) {
+					common = false
+					break
+				}
+			}
+			if common {
+				a.emitEdge(q, true, p, idx, into, "holds on every path that sets the flag")
+			}
+		}
+	}
 }
